@@ -6,6 +6,7 @@ CONSTANTS
   SingleCuts = "@SINGLECUTS@"
   CorrEveryK = @CORREVERYK@
   LenMasks = @LENMASKS@
+  Plans = @PLANS@
 INIT Init
 NEXT Next
 INVARIANTS Emit HandshakeClosedForm RoundTrip CorruptionDetected InOrder NoUnknown WriterShape ClassUniform FlipBehindGarbleUnread
